@@ -59,19 +59,24 @@ struct MUser {
     removed: bool,
 }
 
-const PASSWORDS: [&str; 9] = [
-    "hunter2",
-    "correct horse battery staple",
-    "",
-    "pässwörd-😀",
-    "hunter3",
-    // two long passwords that differ only in their last character (beyond any 64/72-byte prefix), one that differs from
-    // the first only in its first character, and one with an inner NUL
-    "xxxxxxxxxxxxxxxxxxxxxxxxxxxxxxxxxxxxxxxxxxxxxxxxxxxxxxxxxxxxxxxxxxxxxxxxxxxxxxxxxxxxxxxxxxxxA",
-    "xxxxxxxxxxxxxxxxxxxxxxxxxxxxxxxxxxxxxxxxxxxxxxxxxxxxxxxxxxxxxxxxxxxxxxxxxxxxxxxxxxxxxxxxxxxxB",
-    "yxxxxxxxxxxxxxxxxxxxxxxxxxxxxxxxxxxxxxxxxxxxxxxxxxxxxxxxxxxxxxxxxxxxxxxxxxxxxxxxxxxxxxxxxxxxA",
-    "hun\0ter2",
-];
+const N_PASSWORDS: usize = 9;
+
+/// Passwords 5..7 are long (1100 bytes, beyond any plausible prefix an implementation might hash instead of the whole
+/// input): 5 and 6 differ only in their last character, 7 differs from 5 only in its first character.
+fn password(i: usize) -> String {
+    let long = |first: char, last: char| -> String { std::iter::once(first).chain(std::iter::repeat('x').take(1098)).chain(std::iter::once(last)).collect() };
+    match i % N_PASSWORDS {
+        0 => "hunter2".into(),
+        1 => "correct horse battery staple".into(),
+        2 => String::new(),
+        3 => "pässwörd-😀".into(),
+        4 => "hunter3".into(),
+        5 => long('x', 'A'),
+        6 => long('x', 'B'),
+        7 => long('y', 'A'),
+        _ => "hun\0ter2".into(),
+    }
+}
 
 /// A password that is not `pw` but close to it (the ways an implementation could confuse two passwords: a shared prefix,
 /// a truncation, letter case, padding, a terminator).
@@ -90,7 +95,7 @@ fn near_miss(pw: &str, variant: u8) -> String {
             v.into_iter().collect()
         }
         4 => format!("{}\0", pw),
-        5 => if chars.len() > 16 { chars[..16].iter().collect() } else { format!("{} ", pw) },
+        5 => if chars.len() > 600 { chars[..128].iter().collect() } else if chars.len() > 16 { chars[..16].iter().collect() } else { format!("{} ", pw) },
         6 => format!("{}{}", pw, pw),
         _ => format!(" {}", pw),
     };
@@ -131,7 +136,8 @@ pub fn check(c: &Case, shard: usize, stats: &mut (bool, bool)) -> Vec<Fail> {
                 if users.iter().filter(|u| !u.removed).count() >= 5 {
                     continue;
                 }
-                let password = PASSWORDS[*pw as usize % PASSWORDS.len()];
+                let password = password(*pw as usize);
+                let password = password.as_str();
                 match p.create_user(password) {
                     Ok(uid) => {
                         if users.iter().any(|u| u.uid == uid) {
